@@ -554,4 +554,9 @@ def envAll (s : State) : State :=
 /-- one round of the healthy schedule: a sync, then the environment catches up -/
 def round (s : State) : State := envAll (post s)
 
+/-- `n` rounds of the healthy schedule -/
+def rounds : Nat → State → State
+  | 0, s => s
+  | n + 1, s => rounds n (round s)
+
 end RV.DepSync
